@@ -481,7 +481,9 @@ def r6(cx, rec):
     # provenance of the rate: seeder -> download_rate, leecher -> uploaded_rate
     for f, bb in C.callers(F, R.path):
         found = {}
-        for c in F.children(F.owner_fn(f).path):
+        # pair builders: closures of the caller, or named functions it refers to
+        cands = list(F.children(F.owner_fn(f).path)) + [g.path for g in F.user_fns() if g.kind == 'Fn' and g.locals[0]['ty'].startswith('(std::string::String, u32)')]
+        for c in cands:
             cf = F.fns[c]
             for bi, si, s in cf.assigns():
                 if s['lhs']['l'] == 0 and s['rv']['k'] == 'agg' and s['rv'].get('ak') == 'tuple':
@@ -503,7 +505,7 @@ def r6(cx, rec):
                     for bi, si, s in f.assigns():
                         if bi in reg:
                             for y in walk(f.expr_rvalue(s['rv'])):
-                                if y[0] == 'closure' and y[1] in found:
+                                if y[0] in ('closure', 'fn') and y[1] in found:
                                     sel[lab] = found[y[1]]
         rec.site(f, bb, 'rate source: %s' % sel)
         rec.need(sel.get('seeding') == 'download' and sel.get('leeching') == 'upload', 'rate-source', f, bb,
